@@ -127,6 +127,13 @@ def anchor_fns(facts):
         fk = C08.finish_key(facts)
         out.add(fk)
         out.update(C08.helper_roles(facts, fk).values())
+        # whatever the hook hands `&mut parts.name` to is a name normaliser, also when the dispatch on the type goes
+        # through a helper (`match name_rule(self) { .. }`) and the per-variant roles only show after inlining that
+        from purlsa import paths as _paths
+        for o in _paths.outcomes(facts, fk):
+            for e in o["effects"]:
+                if e[0] == "call" and e[2] == ("arg", 2, "name") and e[1] in facts.bodies:
+                    out.add(e[1])
     except Exception:
         pass
     try:
